@@ -7,6 +7,7 @@ import (
 	"go/constant"
 	"go/token"
 	"go/types"
+	"sort"
 	"strings"
 
 	"golang.org/x/tools/go/ssa"
@@ -190,9 +191,113 @@ func GuardLits(b *ssa.BasicBlock) []string {
 				out = append(out, expandBoolPhi(ifi.Cond, side)...)
 			}
 			guardLitsDepth--
+		} else if ph, isNilTest := nilTestedPhi(g.Cond, g.Pol); isNilTest && guardLitsDepth < 3 {
+			// several edges of the error phi can carry nil: what holds on every one of them
+			// holds here
+			guardLitsDepth++
+			out = append(out, nilImplied(ph, 0)...)
+			guardLitsDepth--
 		}
 	}
 	return out
+}
+
+// nilTestedPhi: the guard says φ == nil (with the polarity applied).
+func nilTestedPhi(cond ssa.Value, pol bool) (*ssa.Phi, bool) {
+	for {
+		if u, ok := cond.(*ssa.UnOp); ok && u.Op == token.NOT {
+			cond, pol = u.X, !pol
+			continue
+		}
+		break
+	}
+	bo, ok := cond.(*ssa.BinOp)
+	if !ok || (bo.Op != token.EQL && bo.Op != token.NEQ) || !isNilConst(bo.Y) {
+		return nil, false
+	}
+	ph, ok := bo.X.(*ssa.Phi)
+	if !ok || (bo.Op == token.EQL) != pol {
+		return nil, false
+	}
+	return ph, true
+}
+
+// nilImplied: the literals that hold whenever the phi is nil — the intersection, over the
+// incoming edges that can carry nil, of what holds on that edge (the guards of the predecessor,
+// the edge's own branch condition, and, when the edge value is itself a phi, what its being
+// nil implies). This is how `err = check(); if err == nil && w != nil { _, err = w.Write() };
+// if err != nil { return }` still conveys what check() established.
+func nilImplied(ph *ssa.Phi, depth int) []string {
+	if depth > 3 || len(ph.Edges) > 6 {
+		return nil
+	}
+	var acc map[string]bool
+	for i, e := range ph.Edges {
+		if definitelyNonNil(e) {
+			continue
+		}
+		pred := ph.Block().Preds[i]
+		ls := map[string]bool{}
+		for _, l := range GuardLits(pred) {
+			ls[l] = true
+		}
+		if ifi, isIf := pred.Instrs[len(pred.Instrs)-1].(*ssa.If); isIf && len(pred.Succs) == 2 && pred.Succs[0] != pred.Succs[1] {
+			side := pred.Succs[0] == ph.Block()
+			ls[Lit(ifi.Cond, side)] = true
+			for _, l := range expandBoolPhi(ifi.Cond, side) {
+				ls[l] = true
+			}
+		}
+		if ls[Term(e)+" != nil"] {
+			continue // this edge cannot carry nil
+		}
+		if !isNilConst(e) {
+			ls[Term(e)+" == nil"] = true
+			if ep, isPhi := e.(*ssa.Phi); isPhi && ep != ph {
+				if k, only := onlyNilEdge(ep); only {
+					pp := ep.Block().Preds[k]
+					for _, l := range GuardLits(pp) {
+						ls[l] = true
+					}
+					if ifi, isIf := pp.Instrs[len(pp.Instrs)-1].(*ssa.If); isIf && len(pp.Succs) == 2 && pp.Succs[0] != pp.Succs[1] {
+						ls[Lit(ifi.Cond, pp.Succs[0] == ep.Block())] = true
+					}
+				} else {
+					for _, l := range nilImplied(ep, depth+1) {
+						ls[l] = true
+					}
+				}
+			}
+		}
+		if acc == nil {
+			acc = ls
+			continue
+		}
+		for l := range acc {
+			if !ls[l] {
+				delete(acc, l)
+			}
+		}
+	}
+	var out []string
+	for l := range acc {
+		out = append(out, l)
+	}
+	sort.Strings(out)
+	return out
+}
+
+// onlyNilEdge: exactly one incoming edge of the phi can carry nil.
+func onlyNilEdge(ph *ssa.Phi) (int, bool) {
+	cand, n := -1, 0
+	for i, e := range ph.Edges {
+		if definitelyNonNil(e) {
+			continue
+		}
+		cand = i
+		n++
+	}
+	return cand, n == 1
 }
 
 // expandBoolPhi: for a phi of booleans produced by `x = a && b` (edges: false from the block
